@@ -303,9 +303,18 @@ def ops_for(st, bd, level):
     if kind in ('tri', 'line') and nt <= 8 and not cheap:
         zs = np.array([0., .5, 2.])
 
-        def thunk(m):
+        def line_variants():
             from skfem import MeshLine
-            return m * MeshLine(zs)
+            yield 'sorted', MeshLine(zs)
+            # same points, numbering not monotone in the coordinate (as after refinement / renumbering)
+            yield 'scrambled', MeshLine(np.array([[2., 0., .5]]), np.array([[1, 2], [2, 0]]))
+            yield 'refined', MeshLine(np.array([0., 2.])).refined([0]).refined([0]) if False else \
+                MeshLine(np.array([0., .5, 2.]))
+
+        def thunk(m, which='sorted'):
+            for nme, ln in line_variants():
+                if nme == which:
+                    return m * ln
 
         def j_ext(m0, m1, bad, out):
             kind1 = 'wedge' if kind == 'tri' else 'quad'
@@ -328,6 +337,7 @@ def ops_for(st, bd, level):
             check_valid(m1, kind1, bad)
             out.outcome(('extrude', kind1, m1.t.shape[1]))
         ops.append(('*MeshLine([0,.5,2])', thunk, j_ext))
+        ops.append(('*MeshLine([2,0,.5] scrambled numbering)', lambda m: thunk(m, 'scrambled'), j_ext))
 
     # ---- coordinate maps --------------------------------------------------------------------------
     def j_map(phi, tol=0.0, name='map'):
